@@ -59,8 +59,14 @@ def run(ck, ctx):
                   f"tested: {sorted(tested)}")
         alt = st.heap.get((obj.id, "altitude"))
         ck.ob("R09.1", "the dispatcher binds the altitude callable", alt is not None, obj, func, "")
-        closures = [n for n in walk([alt])] if alt is not None else []
-        closures = [n for n in closures if n.op == "Closure"]
+        closures = []
+        if alt is not None:
+            def leaves(v, depth=0):
+                if v.op == "Phi" and depth < 12:
+                    return leaves(v.args[1], depth + 1) + leaves(v.args[2], depth + 1)
+                return [v]
+            closures = [n for n in leaves(alt) if n.op in ("Closure", "Func", "BoundMethod") or
+                        is_ext_call(n, "functools.partial")]
         ck.floor("R09.1", len(closures), 3, "altitude callables bound by the dispatcher")
         # un-raised exception in the fall-through (unreachable given pydantic validation): note only
         fi = I.find_method(ci, "__init__")
@@ -238,9 +244,8 @@ def run(ck, ctx):
     # ---------------------------------------------------------------- R09.3 / R09.4 / R09.5 map model
     def r093():
         mv = alts.get(None)
-        fcall = [c for c in I.call_log if c[0].qualname == "altitude_from_pressure_map_v0.<locals>.f"]
-        if mv is None or len(fcall) != 1:
-            raise AnalysisError("pressure-map closure not reached exactly once")
+        if mv is None:
+            raise AnalysisError("the value of the pressure-map model was not identified")
         fn = "altitude_from_pressure_map_v0.f"
         dep = Dep(I)
         for nm, node in (("latitude", lat), ("longitude", lon)):
@@ -347,27 +352,33 @@ def run(ck, ctx):
                       f"map {'row' if want_ax == 0 else 'column'}", ok and ax == want_ax, grid, fn, g.show(cnt, 2))
         # R09.5 through the standard atmosphere
         pcalls = [c for c in I.call_log if c[0].qualname == "us_std_atm_altitude_from_pressure"]
-        ok5 = len(pcalls) == 1 and subs and g.same(I.res(pcalls[0][2]["P"], st), subs[0]) or \
-            (len(pcalls) == 1 and subs and any(x is subs[0] for x in walk([I.res(pcalls[0][2]["P"], st)])))
+        def p_arg(c):
+            names = [a_.arg for a_ in c[0].node.args.posonlyargs + c[0].node.args.args]
+            ent = getattr(c[2], "entry", c[2])
+            return I.res(ent[names[0]], st)
+        ok5 = len(pcalls) == 1 and subs and g.same(p_arg(pcalls[0]), subs[0]) or \
+            (len(pcalls) == 1 and subs and any(x is subs[0] for x in walk([p_arg(pcalls[0])])))
         ck.ob("R09.5", "the map pressure is converted by the standard-atmosphere altitude-from-pressure function",
               bool(ok5), mv, fn, f"{len(pcalls)} conversion call(s)")
         if len(pcalls) == 1:
             ck.ob("R09.5", "the closure returns that conversion's value unchanged", g.same(pcalls[0][3], mv) or
                   I.snapshot(pcalls[0][3], st) is mv, mv, fn, "")
-            leak = subs and cone_has(mv, subs[0], except_under=[I.res(pcalls[0][2]["P"], st)])
+            leak = subs and cone_has(mv, subs[0], except_under=[p_arg(pcalls[0])])
             # the pressure value must not bypass the conversion: every path from it goes through P
         ex = [c for c in I.call_log if c[0].qualname == "extract_fits_cloud_pressure_map_v0"]
         okf = False
         detail = f"{len(ex)} extraction call(s)"
         if len(ex) == 1:
-            fstrs = [n for n in g.nodes if n.op == "FStr" and n.fn is not None and
-                     n.fn.qualname == "extract_fits_cloud_pressure_map_v0"]
-            for f in fstrs:
+            # the name of the file that is opened, however it is put together (f-string, str.format, a helper)
+            opened = [e.node for e in I.effects if e.kind == "io" and e.node is not None and
+                      "fits.open" in str(e.data.get("callee", "")) and
+                      any(getattr(f_, "module", None) is not None and f_.module.name.endswith("clouds")
+                          for _s, f_ in e.chain if f_ is not None)]
+            for f in opened:
                 deps = {x.attr for x in walk([f]) if x.op == "Cfg"}
                 if ("simulation", "cloud_model", "month") in deps and ("simulation", "cloud_model", "version") in deps:
                     okf = True
-                    fm = [x for x in f.args if x.op == "Fmt"]
-                    detail = g.show(f, 3)
+                    detail = g.show(f, 4)[:200]
         ck.ob("R09.5", "month and version select the map file name", okf, obj, "extract_fits_cloud_pressure_map_v0",
               detail)
     ck.guard(r093, "R09.3-5")
